@@ -32,8 +32,9 @@ OS == INSTANCE InkOutput
 
 NoSnap == <<>>
 
-\* engine state: [m |-> machine of InkSem, snap |-> NoSnap or the machine at the last newline]
-Engine(m) == [m |-> m, snap |-> NoSnap]
+\* engine state: [m |-> machine of InkSem, snap |-> NoSnap or the machine at the last newline,
+\*                log |-> the calls of external functions the host has really received during this continue]
+Engine(m) == [m |-> m, snap |-> NoSnap, log |-> <<>>]
 
 CanContinue(m) == m.st = "run" /\ m.err = ""
 TagCount(out) == Cardinality({i \in DOMAIN out : out[i].k = "tag"})
@@ -52,20 +53,36 @@ Change(prevText, currText, prevTags, currTags) ==
   ELSE "none"
 
 \* the start of a cont: the output of the previous line is dropped
-BeginCont(e) == [e EXCEPT !.m.out = <<>>, !.m.dirty = {}, !.m.touched = {}]
+BeginCont(e) == [e EXCEPT !.m.out = <<>>, !.m.dirty = {}, !.m.touched = {}, !.log = <<>>]
+
+\* the statement the machine is about to execute is a call of an external function that was bound as NOT safe to run
+\* in look-ahead
+NextIsUnsafeCall(m) ==
+  /\ m.st = "run" /\ m.th # <<>> /\ Head(m.th) # <<>> /\ Head(Head(m.th)).fr # <<>>
+  /\ LET f == Head(Head(Head(m.th)).fr) IN
+     /\ f.i <= Len(Prog.bodies[f.b])
+     /\ LET st == Prog.bodies[f.b][f.i] IN
+        st.k = "call" /\ st.f \in DOMAIN Prog.externs /\ ~Prog.externs[st.f].safe
 
 \* one iteration of the continue loop; done: the line is complete (rewound to the newline)
 SingleStep(e) ==
+  IF e.snap # NoSnap /\ NextIsUnsafeCall(e.m)
+  THEN \* looking ahead past a newline, the engine must not run such a function: the line ends here, the call is made by
+       \* the next continue
+       [m |-> e.snap, snap |-> NoSnap, done |-> TRUE, log |-> e.log]
+  ELSE
   LET m1 == IF e.m.st = "run" THEN S!StepM(e.m) ELSE e.m
+      \* the host has received whatever calls this step made - also when the step is rewound afterwards
+      log == e.log \o SubSeq(m1.calls, Len(e.m.calls) + 1, Len(m1.calls))
       \* out of content: follow an invisible default choice if that is all there is, else the flow has stopped
       m2 == IF m1.st \in {"stopping", "end"} /\ m1.err = "" THEN S!Settle(m1) ELSE m1
       text == OS!CurrentText(m2.out)
       r1 == IF e.snap # NoSnap
             THEN LET ch == Change(OS!CurrentText(e.snap.out), text, TagCount(e.snap.out), TagCount(m2.out)) IN
-                 IF ch = "extended" THEN [m |-> e.snap, snap |-> NoSnap, done |-> TRUE]
-                 ELSE IF ch = "removed" THEN [m |-> m2, snap |-> NoSnap, done |-> FALSE]
-                 ELSE [m |-> m2, snap |-> e.snap, done |-> FALSE]
-            ELSE [m |-> m2, snap |-> NoSnap, done |-> FALSE] IN
+                 IF ch = "extended" THEN [m |-> e.snap, snap |-> NoSnap, done |-> TRUE, log |-> log]
+                 ELSE IF ch = "removed" THEN [m |-> m2, snap |-> NoSnap, done |-> FALSE, log |-> log]
+                 ELSE [m |-> m2, snap |-> e.snap, done |-> FALSE, log |-> log]
+            ELSE [m |-> m2, snap |-> NoSnap, done |-> FALSE, log |-> log] IN
   IF r1.done THEN r1
   ELSE IF OS!EndsInNewline(r1.m.out)
        THEN IF CanContinue(r1.m) THEN [r1 EXCEPT !.snap = IF r1.snap = NoSnap THEN r1.m ELSE r1.snap]
@@ -73,7 +90,7 @@ SingleStep(e) ==
        ELSE r1
 
 \* the loop is left: a snapshot still pending means the look-ahead went further than the line
-EndCont(e) == IF e.snap # NoSnap THEN [m |-> e.snap, snap |-> NoSnap] ELSE [m |-> e.m, snap |-> NoSnap]
+EndCont(e) == IF e.snap # NoSnap THEN [m |-> e.snap, snap |-> NoSnap, log |-> e.log] ELSE [m |-> e.m, snap |-> NoSnap, log |-> e.log]
 
 LoopOver(r) == r.done \/ ~CanContinue(r.m)
 
